@@ -95,6 +95,23 @@ Theorem C13_guards_match :
     /\ (forall g, In g (all_guards C) -> In g (rc_configure_features C) \/ In g (rc_configure_generic C)).
 Proof. exact (guards_match_spec C (proj1 (proj2 (proj2 (proj2 (proj2 (proj2 (proj2 (consts_parts C gen_ok))))))))). Qed.
 
+(** snoopy_outputregistry_dispatch (the entry point the logging path uses): the configured output name CFG->output goes through
+    the very same lookup - an available name runs its own output, a switched-off (or any unknown) name runs NOTHING, in every
+    configuration; there is no fallback to another slot.  [rc_entries_ok] (part of gen_ok) says these are all the entry points:
+    every function of the three registry files is one of getCount/doesIdExist/doesNameExist/getIdFromName/getName/callById/
+    callByName/dispatch in the modelled shape, and no other source file touches the arrays. *)
+Theorem C13_dispatch_is_call : forall cfg n, dispatch C cfg n = call SENT (rc_out C) cfg n.
+Proof. exact (dispatch_is_call C gen_ok). Qed.
+Theorem C13_dispatch_own : forall cfg n, In n (names SENT (rc_out C) cfg) -> dispatch C cfg n = Called (impl_of Output n).
+Proof. intros cfg n H. rewrite C13_dispatch_is_call. exact (C13_lookup_own Output cfg n H). Qed.
+Theorem C13_dispatch_off_is_unknown : forall cfg n, enabled (rc_out C) cfg n = false -> dispatch C cfg n = Unknown.
+Proof. intros cfg n H. rewrite C13_dispatch_is_call. exact (proj1 (C13_off_is_unknown Output cfg n H)). Qed.
+Example C13_dispatch_nonvacuous :
+  let cfg := switch_off "SNOOPY_CONF_OUTPUT_ENABLED_devlog" all_on in
+  dispatch C cfg "devlog" = Unknown /\ dispatch C cfg "devnull" = Called "snoopy_output_devnulloutput"
+  /\ dispatch C all_on "devlog" = Called "snoopy_output_devlogoutput" /\ dispatch C all_off "noop" = Called "snoopy_output_noopoutput".
+Proof. vm_compute. repeat split. Qed.
+
 (** the executable specification evaluated on the implementation's answers accepts the model everywhere *)
 Theorem C13_model_meets_spec : forall k defined probe, spec_C13_ok C k defined probe (model_call C k defined probe) = true.
 Proof. exact (model_meets_spec C gen_ok). Qed.
@@ -171,4 +188,7 @@ Print Assumptions C13_call_by_id_own.
 Print Assumptions C13_names_NoDup.
 Print Assumptions C13_guards_match.
 Print Assumptions C13_model_meets_spec.
+Print Assumptions C13_dispatch_is_call.
+Print Assumptions C13_dispatch_own.
+Print Assumptions C13_dispatch_off_is_unknown.
 Print Assumptions C13ext_option_own_parser_getter.
